@@ -234,7 +234,11 @@ class Task:
         force_close = getattr(self.request, "connection_close", False)
 
         if version == "1.0":
-            if connection == "keep-alive" and not force_close:
+            if (
+                connection == "keep-alive"
+                and not force_close
+                and not self.close_on_finish
+            ):
                 if not content_length_header:
                     self.set_close_on_finish()
                 else:
